@@ -79,5 +79,5 @@ def check(ctx: Ctx) -> None:
         ctx.ob("C05.attach", f"{lt},{rt}", out[0] == "ret" and out[1] == other["state"],
                f"attaching a format constraint to {other['cls']}({other['state']}) gives {out[:2]} instead of leaving the state unchanged",
                file=FILE, line=fn.node.lineno, function=cb)
-    report_sweep(ctx, ("C04.tree", "C06.tree"), FILE)
+    ctx.soft(lambda: report_sweep(ctx, ("C04.tree", "C06.tree"), FILE))
     ctx.assume("brackets leave no node in the tree (decided by C01.brackets)")
